@@ -25,6 +25,7 @@ var c01Specs = []famSpec{
 	{Family: "rect-soup", Pool: 60000, PoolQ: 3000},
 	{Family: "rect-cavity", Pool: 60000, PoolQ: 3000},
 	{Family: "touching", FreshQ: 3000, FreshT: 60000},
+	{Family: "stacked", FreshQ: 1500, FreshT: 30000},
 	{Family: "nested-small", Pool: 40000, PoolQ: 2000},
 	{Family: "nested", FreshQ: 2000, FreshT: 60000},
 	{Family: "degenerate-wide", FreshQ: 2000, FreshT: 60000},
